@@ -1,14 +1,24 @@
 #!/bin/bash
 # usage: tools/mut.sh <ID> <file-relative-to-repo> <sed-expression> [tier]
-# Applies a one-line mutation to /repo, runs the check, always reverts.
+#    or: tools/mut.sh <ID> --patch <patch.diff> [tier]
+# Applies a mutation to a scratch copy of /repo (never to /repo itself), runs the
+# check against the copy (VERIF_REPO) and removes the copy.
 set -u
-ID=$1; F=$2; EXPR=$3; TIER=${4:-quick}
-cd /repo || exit 3
-if ! git diff --quiet; then echo "repo dirty"; exit 3; fi
-sed -i -E "$EXPR" "$F"
-if git diff --quiet; then echo "MUTATION DID NOT APPLY"; exit 3; fi
-git diff | grep '^[+-]' | grep -v '^+++\|^---' | head -6
-cd /verif && ./check "$ID" --tier "$TIER" > /tmp/mut-$ID.log 2>&1; rc=$?
-git -C /repo checkout -- .
-grep -E "VIOLATION|INCONCLUSIVE|\[$ID\] tier" /tmp/mut-$ID.log | head -5
-echo "rc=$rc ($( [ $rc = 1 ] && echo CAUGHT || echo MISSED ))"
+ID=$1
+S=/tmp/vpmut-$ID-$$
+rm -rf "$S"; mkdir -p "$S"
+rsync -a --exclude .git /repo/ "$S"/
+if [ "$2" = "--patch" ]; then
+  (cd "$S" && patch -p1 -s < "$3") || { echo "PATCH DID NOT APPLY"; rm -rf "$S"; exit 3; }
+  TIER=${4:-quick}
+else
+  F=$2; EXPR=$3; TIER=${4:-quick}
+  sed -i -E "$EXPR" "$S/$F"
+  if diff -q "$S/$F" "/repo/$F" >/dev/null; then echo "MUTATION DID NOT APPLY"; rm -rf "$S"; exit 3; fi
+  diff "/repo/$F" "$S/$F" | head -6
+fi
+cd /verif && VERIF_REPO="$S" VERIF_RUN_TAG="mut$$" ./check "$ID" --tier "$TIER" > "$S.log" 2>&1; rc=$?
+grep -E "VIOLATION|INCONCLUSIVE|\[$ID\] tier" "$S.log" | head -5
+[ $rc = 2 ] && tail -30 "$S.log"
+rm -rf "$S" /verif/.buildmut$$ /verif/.runmut$$
+echo "rc=$rc ($( [ $rc = 1 ] && echo CAUGHT || echo MISSED )) log=$S.log"
